@@ -15,6 +15,7 @@ pub mod c03;
 pub mod c04;
 pub mod c05;
 pub mod c06;
+pub mod c07;
 pub mod c08;
 pub mod c09;
 pub mod rulecheck;
@@ -30,11 +31,13 @@ pub mod c19;
 pub mod c20;
 pub mod c21;
 pub mod c22;
+pub mod c23;
 pub mod c24;
 pub mod c25;
 pub mod c26;
 pub mod c27;
 pub mod c28;
+pub mod c29;
 pub mod textcorpus;
 
 pub struct Corpus {
